@@ -5,13 +5,14 @@ import asmk
 
 PROP = "C08"
 NAMES = ["gg1", ".ll1", "sc1.ll1", "gg2", "st1.ll1", "st1"]
-OPS = ["label", "defl", "defn", "redefl", "redefn", "undef", "isdef", "use", "usefwd", "use2", "usepair", "struct"]
+OPS = ["label", "defl", "defn", "redefl", "redefn", "undef", "isdef", "use", "usefwd", "use2", "usepair", "struct", "sizeuse", "sizedef"]
 
 class Abstract:
     """the abstract history machine: a finite map name -> expression over names/ints, with the
     namespace rule for local names and the immediate-or-final evaluation rule of uses"""
     def __init__(self):
-        self.tab = {}          # qualified name -> expr  (int | ('add', name, int))
+        self.tab = {}          # qualified name -> expr  (int | ('add', name, int) | ('size', name))
+        self.sizes = {}        # qualified name -> its @SIZEOF (only while its current definition is a struct field)
         self.ns = None
         self.here = 0x100
         self.bytes = []        # expected output bytes: int or ('late', expr)
@@ -28,6 +29,8 @@ class Abstract:
     def solve(self, e, tab, seen=()):
         if isinstance(e, int):
             return e
+        if e[0] == 'size':
+            return self.sizes[e[1]] if (e[1] in tab and e[1] in self.sizes) else None
         _, n, k = e
         if n in seen or n not in tab:
             return None
@@ -71,7 +74,7 @@ def run_history(hist, only_failed=False):
             if d is None: break
             if d in A.tab:
                 A.failed = "redefined"; break
-            A.tab[d] = A.here
+            A.tab[d] = A.here; A.sizes.pop(d, None)
         elif op in ("defl", "defn", "redefl", "redefn"):
             d = A.q(n)
             lines.append("@%s %s, %s" % (op, n, etxt))
@@ -82,12 +85,12 @@ def run_history(hist, only_failed=False):
                 da = A.q(arg)
                 if da is None: break
                 e = ('add', da, 1)
-            A.tab[d] = A.inline(e)
+            A.tab[d] = A.inline(e); A.sizes.pop(d, None)
         elif op == "undef":
             d = A.q(n)
             lines.append("@undef " + n)
             if d is None: break
-            A.tab.pop(d, None)
+            A.tab.pop(d, None); A.sizes.pop(d, None)
         elif op == "isdef":
             d = A.q(n)
             lines.append("@db @isdef " + n)
@@ -110,6 +113,20 @@ def run_history(hist, only_failed=False):
                 A.failed = "redefined"; break
             A.tab[sname + ".ll1"] = 0
             A.tab[sname] = {"@db": 1, "@dw": 2, "2": 2, "3": 3}[kind]
+            A.sizes[sname + ".ll1"] = A.tab[sname]; A.sizes.pop(sname, None)
+        elif op == "sizeuse":
+            # the size of a field: the value it has here if it can be computed here, the final one otherwise
+            d = A.q(n)
+            lines.append("@db @sizeof " + n)
+            if d is None: break
+            e = A.inline(('size', d))
+            A.bytes.append(e & 255 if isinstance(e, int) else ('late', e)); A.here += 1
+        elif op == "sizedef":
+            # a constant defined from a size captures it like any other value
+            d = A.q(n)
+            lines.append("@redefn gg2, @sizeof " + n)
+            if d is None: break
+            A.tab["gg2"] = A.inline(('size', d)); A.sizes.pop("gg2", None)
         elif op in ("use2", "usepair"):
             # one deferred expression that reaches names twice (the same name, or two names that may share a pending base)
             m = n if op == "use2" else arg
@@ -170,6 +187,12 @@ def run(ck):
     rng = ck.rng
     thorough = ck.tier == "thorough"
     hists = [[("defn", "gg1", 1), ("use", "gg1", None), ("undef", "gg1", None)],      # the historical defect
+             # ... and its @sizeof twins (repaired in 86e9815): a size used, then the field removed / declared anew
+             [("struct", "st1", 0), ("sizeuse", "st1.ll1", None), ("undef", "st1.ll1", None)],
+             [("struct", "st1", 3), ("sizedef", "st1.ll1", None), ("use", "gg2", None), ("undef", "st1.ll1", None), ("undef", "st1", None),
+              ("struct", "st1", 1), ("use", "gg2", None), ("sizeuse", "st1.ll1", None)],
+             [("sizeuse", "st1.ll1", None), ("struct", "st1", 1), ("sizeuse", "st1.ll1", None)],
+             [("sizedef", "st1.ll1", None), ("use", "gg2", None), ("struct", "st1", 2)],
              # one deferred expression reaching a pending name twice / through two paths
              [("use2", "gg1", None), ("defn", "gg1", 5)],
              [("defn", "gg2", "gg1"), ("use2", "gg2", None), ("defn", "gg1", 3)],
@@ -183,7 +206,7 @@ def run(ck):
     L = 4 if thorough else 3
     for n in range(1, L + 1):
         for ops in itertools.product(OPS, repeat=n):
-            for names in ([("gg1",) * n, (".ll1",) * n] if n > 2 else itertools.product(NAMES[:3], repeat=n)):
+            for names in ([("gg1",) * n, (".ll1",) * n, ("st1.ll1",) * n] if n > 2 else itertools.product(NAMES[:3] + ["st1.ll1"], repeat=n)):
                 h = []
                 for i, (op, nm) in enumerate(zip(ops, names)):
                     arg = None
